@@ -127,7 +127,7 @@ func buildServer(bin string) error {
 			env = append(env, kv)
 		}
 	}
-	env = append(env, "GOFLAGS=-mod=mod", "GOPROXY=off", "GOSUMDB=off", "GOTOOLCHAIN=local", "GOCACHE=/verif/build/gocache")
+	env = append(env, "GOFLAGS=-mod=mod", "GOPROXY=off", "GOSUMDB=off", "GOTOOLCHAIN=local", "GOCACHE="+gocache())
 	cmd.Env = env
 	out, err := cmd.CombinedOutput()
 	if err != nil {
@@ -170,6 +170,13 @@ func readScenarios(path string) ([]*scenario, error) {
 	return out, nil
 }
 
+func gocache() string {
+	if v := os.Getenv("VERIF_HOME"); v != "" {
+		return v + "/build/gocache"
+	}
+	return "/verif/build/gocache"
+}
+
 func main() {
 	scenFile := flag.String("scenarios", "", "ndjson file, one scenario per line")
 	outFile := flag.String("out", "", "observation file (ndjson)")
@@ -184,7 +191,6 @@ func main() {
 	}
 	t0 := time.Now()
 	if *build {
-		*bin = "/verif/build/resonate"
 		if err := os.MkdirAll(filepath.Dir(*bin), 0o755); err != nil {
 			fmt.Fprintln(os.Stderr, "procx:", err)
 			os.Exit(1)
